@@ -544,6 +544,9 @@ func vfH_C20_holdqueue() {
 	P := 0
 	if N >= 140 {
 		P = [4]int{0, 1, 130, 280}[vfChoice("prepop", 4)]
+	} else if N > 0 {
+		// the short fills: nothing popped, all but one, or all of them (the inline slice fully drained)
+		P = [3]int{0, N - 1, N}[vfChoice("prepop", 3)]
 	}
 	for i := 0; i < P && len(model) > 0; i++ {
 		r := popLive()
